@@ -1,1 +1,113 @@
-/- C18 property theorems (stub: not built yet) -/
+import ThriftVerif.Gen.DeepEqLemmas
+import ThriftVerif.Generated.C18
+/-
+  C18 — generated DeepEqual is structural equality (DESIGN.md §5.18).
+
+  Model: `Gen.DeepEq.deepEqual` (templates/deep_equal.go, statement by statement, for two disjoint object
+  graphs), `deepEqualTop` (the identical-pointer shortcut), `Gen.DeepEq.toW` (Write with the validate_set block of
+  FieldWriteSet). Specification: `Gen.DeepEq.valEq`. Skeleton facts of the template: `Generated.C18.facts`
+  (regenerated from the working tree on every run).
+
+  The full property statement
+
+      theorem deep_equal_iff (P) (i) (a b) :
+        deepEqual facts P (.struct i) a b = .ok (valEq P (.struct i) a b)
+
+  is FALSE on the current tree, in three ways, each with a `decide`d witness below that the check replays on the
+  generated code on every run:
+    * `deep_equal_iff_fails_missing_key`      map<i32,i32>  {1:0} vs {2:0}            → true   (valEq: false)
+    * `deep_equal_iff_fails_struct_key`       map<K,i32>    {K{1}:7} vs its deep copy → false  (valEq: true)
+    * `deep_equal_iff_fails_optional_binary`  optional binary: unset vs empty         → true   (valEq: false)
+  `deep_equal_iff_partial` is the statement on the pairs outside these shapes (hypothesis `aligned`, decidable).
+-/
+namespace Props.C18
+open Gen Gen.DeepEq
+
+abbrev facts := Generated.C18.facts
+
+/-- tie: the template of the working tree tests `len(tgt) != len(src)` before the element loop -/
+theorem facts_current : facts.lenTest = true := by decide
+
+/-- On every pair whose maps, met in lockstep, have base-typed keys and EQUAL KEY SETS (or are empty / of different
+size), and which does not pit an unset optional binary against a set one, DeepEqual answers structural equality. -/
+theorem deep_equal_iff_partial (P : Prog) (ty : Ty) (a b : GoVal) (h : aligned P ty a b = true) :
+    deepEqual facts P ty a b = .ok (valEq P ty a b) :=
+  deepEqual_eq_valEq facts facts_current P a ty b h
+
+-- the hypothesis is satisfiable, also by pairs of different values and by nested maps
+example : aligned Witness.P (.struct 1) Witness.m10 Witness.m13 = true := by decide
+example : aligned Witness.P (.struct 1) Witness.m10 Witness.m10 = true := by decide
+example : aligned Witness.P (.struct 3) Witness.emptyBin Witness.emptyBin = true := by decide
+
+/-- negative witness 1 (DESIGN §7): `{1:0}` vs `{2:0}` in a `map<i32,i32>`: equal length, the missing key reads as the
+zero value. Stated for the template as extracted: it disappears once the loop uses the comma-ok form. -/
+theorem deep_equal_iff_fails_missing_key : facts.commaOk = false →
+    deepEqual facts Witness.P (.struct 1) Witness.m10 Witness.m20 = .ok true ∧
+    valEq Witness.P (.struct 1) Witness.m10 Witness.m20 = false := by decide
+
+/-- negative witness 2: a struct-typed map key is a pointer; the key of a deep copy is never found in the other map -/
+theorem deep_equal_iff_fails_struct_key :
+    deepEqual facts Witness.P (.struct 2) Witness.k17 Witness.k17 = .ok false ∧
+    valEq Witness.P (.struct 2) Witness.k17 Witness.k17 = true := by decide
+
+/-- negative witness 3: an unset optional binary equals a set, empty one (`bytes.Compare(nil, []byte{}) == 0`) -/
+theorem deep_equal_iff_fails_optional_binary :
+    deepEqual facts Witness.P (.struct 3) Witness.unsetBin Witness.emptyBin = .ok true ∧
+    valEq Witness.P (.struct 3) Witness.unsetBin Witness.emptyBin = false := by decide
+
+/-- the asymmetric residue: `{1:0}.DeepEqual({2:5})` but not `{2:5}.DeepEqual({1:0})` -/
+theorem deep_equal_not_symmetric : facts.commaOk = false →
+    deepEqual facts Witness.P (.struct 1) Witness.m10 Witness.m25 = .ok true ∧
+    deepEqual facts Witness.P (.struct 1) Witness.m25 Witness.m10 = .ok false := by decide
+
+/-- `x.DeepEqual(x)` (the same pointer) is true whatever x holds (pointer shortcut), NaN included -/
+theorem deep_equal_identical (P : Prog) (i : Nat) (a b : GoVal) : deepEqualTop facts P i true a b = .ok true := rfl
+
+/-- no call panics: nil receivers, nil arguments, nil fields, nil / empty / different-length containers -/
+theorem deep_equal_nil_safe (P : Prog) (i : Nat) (same : Bool) (a b : GoVal) :
+    deepEqualTop facts P i same a b ≠ .panic ∧
+    deepEqual facts P (.struct i) .nil b = .ok (isNilV b) ∧          -- nil receiver: true iff the argument is nil
+    deepEqual facts P (.struct i) (.strct []) .nil ≠ .panic := by
+  refine ⟨?_, rfl, deepEqual_ne_panic facts facts_current P _ _ _⟩
+  cases same
+  · exact deepEqual_ne_panic facts facts_current P a (.struct i) b
+  · simp [deepEqualTop]
+
+/-- the set check of Write (`for i … for j := i+1 …`) answers "not unique" iff some pair `i < j` compares equal
+under the comparison the template uses (`setCmp`: the generated DeepEqual with gen_deep_equal, reflect.DeepEqual
+otherwise), provided every comparison answers (no ill-typed element) -/
+theorem validate_set_iff (P : Prog) (de : Bool) (e : Ty) (xs : List GoVal)
+    (hok : ∀ x ∈ xs, ∀ y ∈ xs, ∃ c, setCmp facts P de e x y = .ok c) :
+    dupCheck (setCmp facts P de e) xs = .ok true ↔
+      ∃ (i j : Nat) (_ : i < j) (hj : j < xs.length), setCmp facts P de e (xs[i]'(by omega)) xs[j] = .ok true := by
+  rw [dupCheck_eq _ xs hok, ← hasDup_iff]
+  constructor
+  · intro h; injection h
+  · intro h; rw [h]
+
+-- satisfiable: two equal i32 elements
+example : dupCheck (setCmp facts Witness.P true .i32) [.int 1, .int 2, .int 1] = .ok true := by decide
+
+/-- how Write uses it: with validate_set, a set whose check finds a pair is refused (`err`), one whose check finds none
+is written as without the option -/
+theorem validate_set_write (P : Prog) (de : Bool) (e : Ty) (xs : List GoVal) :
+    (P.validateSet = true → dupCheck (setCmp facts P de e) xs = .ok true → toW facts P de (.set e) (.list xs) = .err) ∧
+    (P.validateSet = true → dupCheck (setCmp facts P de e) xs = .ok false →
+      toW facts P de (.set e) (.list xs) = (toWList facts P de e xs >>= fun ws => .ok (.set e.ttype ws))) ∧
+    (P.validateSet = false →
+      toW facts P de (.set e) (.list xs) = (toWList facts P de e xs >>= fun ws => .ok (.set e.ttype ws))) := by
+  refine ⟨?_, ?_, ?_⟩
+  · intro hv hd; simp [toW, hv, hd]
+  · intro hv hd; simp only [toW, hv, hd, if_true]
+  · intro hv; simp only [toW, hv, Bool.false_eq_true, if_false]
+
+/-- consequence of negative witness 1 for Write: a set of two DIFFERENT maps is refused as "not unique" -/
+theorem validate_set_rejects_distinct : facts.commaOk = false →
+    isErr (toW facts Witness.P true (.struct 4) Witness.setOfMaps) = true ∧
+    valEq Witness.P (.map .i32 .i32) (.map [(.int 1, .int 0)]) (.map [(.int 2, .int 0)]) = false := by decide
+
+/-- without gen_deep_equal the Write modelled here is `Gen.Std.toW` (C02's model) -/
+theorem write_eq_std (P : Prog) (ty : Ty) (v : GoVal) : toW facts P false ty v = Std.toW P ty v :=
+  toW_eq_std facts P v ty
+
+end Props.C18
